@@ -142,10 +142,12 @@ def round (s : Style) : RStyle → (K → Int) → K → K → Int
 def sameVal (a b : K) : Bool := !decide (a < b) && !decide (b < a)
 
 /-- `trunc_t<I, T, cstyle, downward>::trunc`; `uns` = `!std::numeric_limits<I>::is_signed`
-    (after fixes/C17_trunc_large.patch: an integer `val` is returned unchanged before `lower+1` is looked at) -/
+    (after fixes/C17_trunc_large.patch: an integer `val` is returned unchanged before `lower+1` is looked at; after
+    fixes/C17_trunc_range_end.patch: when `I(val)` lies above `val` it is tested against `val` before the decrement) -/
 def truncDown (s : Style) (uns : Bool) (tr : K → Int) (val eps : K) : Int :=
   if uns && eqS s val ((0 : Int) : K) eps then 0 else
   let lower := tr val
+  if decide ((lower : K) > val) && eqS s (lower : K) val eps then lower else
   let lower := if (lower : K) > val then lower - 1 else lower
   if sameVal (lower : K) val then lower else
   if eqS s ((lower + 1 : Int) : K) val eps then lower + 1 else lower
@@ -204,6 +206,15 @@ def roundM (t : IType) (s : Style) : RStyle → (K → Int) → K → K → Int
   | .towardInf, tr, val, eps => if val > ((0 : Int) : K) then roundUpM t s tr val eps else roundDownM t s tr val eps
 
 def truncDownM (t : IType) (s : Style) (tr : K → Int) (val eps : K) : Int :=
+  if !t.signed && eqS s val ((0 : Int) : K) eps then 0 else
+  let lower := tr val
+  if decide ((lower : K) > val) && eqS s (lower : K) val eps then lower else
+  let lower := if (lower : K) > val then t.wrap (lower - 1) else lower
+  if sameVal (lower : K) val then lower else
+  if eqS s ((t.arith (lower + 1) : Int) : K) val eps then t.wrap (lower + 1) else lower
+
+/-- the downward truncation before fixes/C17_trunc_range_end.patch (kept to state the defect) -/
+def truncDownOldM (t : IType) (s : Style) (tr : K → Int) (val eps : K) : Int :=
   if !t.signed && eqS s val ((0 : Int) : K) eps then 0 else
   let lower := tr val
   let lower := if (lower : K) > val then t.wrap (lower - 1) else lower
